@@ -55,9 +55,9 @@ IMGS = st.tuples(st.integers(0, 99), st.sampled_from(['&', "'", 'a&b', '%20', '<
 NUMERIC_KEYS = ['Base Header Level', 'HTML Header Level', 'ODF Header Level', 'EPUB Header Level']
 META = st.lists(st.tuples(st.sampled_from(['Title', 'Author', 'Date', 'Keywords', 'My Key', 'language', 'css', 'latex config', 'Subtitle', 'uuid', 'Copyright', 'Affiliation',
                                            'Revision', 'BibTeX', 'Quotes Language'] + NUMERIC_KEYS),
-                          st.tuples(st.integers(0, 99), st.sampled_from(ATTR_PAYLOADS + ['<b>', '</title>', '--', '#-5', '#0', '#3', '#7', '#99999', '#x']))), max_size=5, unique_by=lambda t: t[0]) \
+                          st.tuples(st.integers(0, 99), st.sampled_from(ATTR_PAYLOADS + ['<b>', '</title>', '--', '#-5', '#0', '#3', '#7', '#99999', '#32700', '#x']))), max_size=5, unique_by=lambda t: t[0]) \
     .map(lambda m: [[k, (p[1:] if p.startswith('#') else 'q%da%s0%dq' % (n, p, n))] for k, (n, p) in m] or None)
-CFG = gdoc.Cfg(words=word(), inlines=['t', 'em', 'st', 'code', 'link', 'img', 'esc', 'bare', 'fnref', 'ifn', 'imath', 'cite', 'gloss', 'auto', 'email'],
+CFG = gdoc.Cfg(words=word(), inlines=['t', 'em', 'st', 'code', 'link', 'img', 'esc', 'bare', 'fnref', 'ifn', 'imath', 'cite', 'gloss', 'auto', 'email', 'critic', 'reflink'],
                blocks=['para', 'atx', 'setext', 'hr', 'fence', 'icode', 'quote', 'list', 'table', 'figure', 'deflist', 'toc'],
                code=word().map(safe_for_code), codelines=word().map(safe_for_code), urls=URLS, titles=TITLES, images=IMGS, meta=META,
                langs=st.sampled_from([None] + LANGS), cell_inlines=['t', 'em', 'code', 'img', 'link', 'fnref'], cell_pad=st.booleans())
@@ -70,7 +70,7 @@ def strategy(tier):
     return st.fixed_dictionaries({'doc': gdoc.document(CFG), 'ext': st.sampled_from(EXTS), 'lang': st.integers(0, 6), 'packages': st.integers(0, 3)})
 
 
-RAW_HTML = re.compile(r'<(?!!--)[A-Za-z/!?]')
+RAW_HTML = re.compile(r'<(?!!--)(?![A-Za-z][A-Za-z0-9+.\-]*:[^\s<>]*>)(?![^\s<>@]+@[^\s<>]+>)[A-Za-z/!?]')      # automatic links <scheme:...> and <user@host> are not raw HTML
 NAMED_ENT = re.compile(r'&[A-Za-z][A-Za-z0-9]*;')
 SENT_A = re.compile(r'q(\d+)a')
 
@@ -167,6 +167,8 @@ def classify_slot(ctxt):
 def check(case, ctx):
     w = ctx.w
     src = sanitize(gdoc.ser_doc(case['doc']))
+    # link attributes on reference definitions carry payloads as well (values are quoted, so everything but the quote itself)
+    src = re.sub(r'(?m)^(\[(?:ref1|Ref Two|r-3)\]: \S+(?: "[^"\n]*")?)$', lambda m: m.group(1) + ' class="q7a<&>07q" width=40px', src)
     ext, lang = case['ext'], case['lang']
     ctx.cls('ext_%#x' % ext)
     slots = 0
